@@ -1,6 +1,6 @@
 #!/bin/bash
 # runs every claimed check (quick tier) on the current /repo tree; prints one line per property
 cd /verif
-for p in $(python3 -c "import json;print(' '.join(c['property_id'] for c in json.load(open('MANIFEST.json'))['checks']))") C13; do
+for p in $(python3 -c "import json;print(' '.join(c['property_id'] for c in json.load(open('MANIFEST.json'))['checks']))"); do
   s=$(date +%s); ./bin/govc check $p > /tmp/runall_$p.log 2>&1; ex=$?; echo "$p exit=$ex $(( $(date +%s)-s ))s $(tail -1 /tmp/runall_$p.log | cut -c1-150)"
 done
